@@ -293,6 +293,11 @@ func (w *walker) transaction(i int, decide int, byKey bool) {
 				}
 			}
 		}
+		// C03: the single-objective policy (accept only what the verdict allows) keeps a within-limit state within the limit
+		if cm.limVar >= 0 && decide == 2 && pre.totals[cm.limVar] <= cm.limit+1e-9 && post.totals[cm.limVar] > cm.limit+1e-9 {
+			w.fail("C03:held-state-respects-limit", "catchment:valid-verdict-led-over-the-limit",
+				fmt.Sprintf("propose %d in set %s was judged valid and accepted: %s went %v -> %v, limit %v", i, pre.enc, varNames[cm.limVar], pre.totals[cm.limVar], post.totals[cm.limVar], cm.limit))
+		}
 		w.c.Stat(w.tag + " accept")
 		w.checkState(fmt.Sprintf("propose %d; accept", i), post)
 	} else {
